@@ -4,10 +4,10 @@
 set -e
 cd /verif/contracts
 changed=0
-for f in $(find . -name verif_contracts.go); do
-  d=$(dirname "$f")
-  if ! cmp -s "$f" "/repo/$d/verif_contracts.go"; then
-    cp "$f" "/repo/$d/verif_contracts.go"; git -C /repo add "$d/verif_contracts.go"; changed=1
+for f in $(find . -name 'verif_contracts*.go'); do
+  d=$(dirname "$f"); b=$(basename "$f")
+  if ! cmp -s "$f" "/repo/$d/$b"; then
+    cp "$f" "/repo/$d/$b"; git -C /repo add "$d/$b"; changed=1
   fi
 done
 if [ $changed = 1 ]; then
